@@ -1,7 +1,11 @@
 import ZV.Model.C02
+import ZV.Model.C02Names
+import ZV.Model.C02Views
+import ZV.Model.C09
 /-! line protocol for C02:
     pol <0|1> <spec>   spec = policies separated by `|`, notices by `.`, notice ∈ {t, r, tr, n}, `-` = no notice
-    names <hex,hex,…|-> -/
+    names <hex,hex,…|->
+    coll / jnames <cn> <dns> <uris> <ipbytes> <iptexts> <urlok>   (lists: `_` = empty, items hex, `-` = empty string) -/
 namespace ZV.C02
 
 def mkNotice (j : Nat) (s : String) : NoticeIn :=
@@ -21,6 +25,82 @@ def showNotice (n : NoticeOut) : String :=
   (match n.1 with | some t => "T" ++ t | none => "") ++
   (match n.2 with | some (o, k) => "R" ++ o ++ "[" ++ "_".intercalate (k.map toString) ++ "]" | none => "")
 
+def parseStrList (s : String) : Option (List Str) :=
+  if s == "_" then some [] else (s.splitOn ",").mapM ofHex
+
+def showStrList (l : List Str) : String :=
+  if l.isEmpty then "_" else ",".intercalate (l.map toHex)
+
+def handleNames (withRedacted : Bool) (cn dns uris ipt ok : String) : String :=
+  match ofHex cn, parseStrList dns, parseStrList uris, parseStrList ipt, parseStrList ok with
+  | some cn, some dns, some uris, some ipt, some ok =>
+    match namesView (fun s => ok.contains s) { commonName := cn, dnsNames := dns, uris := uris, ipTexts := ipt } with
+    | .ok (names, red) => showStrList names ++ (if withRedacted then (if red then " r=1" else " r=0") else "")
+    | .err => "err"
+    | .panic => "panic"
+  | _, _, _, _, _ => "bad-op"
+
+def hexNoDash (b : Bytes) : String := String.join (b.map hexOfByte)
+
+/-- canonical text of an optional IP as `net.IP.String` would show it, normalised to 16 bytes -/
+def canonIP : Option Bytes → String
+  | none => "-"
+  | some b =>
+    if b.length = 0 then "-"
+    else if b.length = 4 then "i" ++ toHex (v4InV6Prefix ++ b)
+    else if b.length = 16 then "i" ++ toHex b
+    else "?" ++ hexNoDash b
+
+def showCidr : Option (Bytes × (Nat ⊕ Bytes)) → String
+  | none => "nil"
+  | some (nn, .inl l) => canonIP (some nn) ++ "/" ++ toString l
+  | some (nn, .inr m) => canonIP (some nn) ++ "/" ++ hexNoDash m
+
+def parseOid (s : String) : Option (List Nat) := (s.splitOn ".").mapM (·.toNat?)
+
+def showNats (l : List Nat) : String := if l.isEmpty then "_" else ",".intercalate (l.map toString)
+
+def handleViews (args : List String) : String :=
+  match args with
+  | ["gsi", _, ip, mask] =>
+    match ofHex ip, ofHex mask with
+    | some ip, some mask =>
+      match subtreeIPView ip mask with
+      | .ok v => "cidr=" ++ showCidr v.cidr ++ " b=" ++ canonIP v.begin ++ " e=" ++ canonIP v.end_ ++ " m=" ++ canonIP v.mask
+      | .err => "err"
+      | .panic => "panic"
+    | _, _ => "bad-op"
+  | ["ku", k] =>
+    match k.toNat? with
+    | some k =>
+      let (bits, v) := keyUsageView k
+      String.join (bits.map (fun b => if b then "1" else "0")) ++ " v=" ++ toString v
+    | none => "bad-op"
+  | ["kan", p] =>
+    match parseInt p with
+    | some p => showRes id (keyAlgName p)
+    | none => "bad-op"
+  | ["san", a] =>
+    match parseInt a with
+    | some a =>
+      match sigAlgString a, sigAlgJSONName a with
+      | .ok s, .ok n => "ok " ++ (if s.isEmpty then "-" else s) ++ " " ++ (if n.isEmpty then "-" else n)
+      | .panic, _ => "panic"
+      | _, .panic => "panic"
+      | _, _ => "err"
+    | none => "bad-op"
+  | ["jx", oids, isCA, mpl, z] =>
+    match (if oids == "_" then some [] else (oids.splitOn ";").mapM parseOid), parseInt mpl with
+    | some oids, some mpl =>
+      let (known, unk) := jsonifySplit oids
+      let bc := if known.contains 1 then
+          let v := basicConstraintsView (isCA == "1") mpl (z == "1")
+          (if v.1 then "true:" else "false:") ++ (match v.2 with | some n => itoa n | none => "nil")
+        else "none"
+      "k=" ++ showNats ((List.range knownExtOids.length).filter (fun i => known.contains i)) ++ " u=" ++ showNats unk ++ " bc=" ++ bc
+    | _, _ => "bad-op"
+  | _ => "bad-op"
+
 def handle (args : List String) : String :=
   match args with
   | ["pol", cps, spec] =>
@@ -35,6 +115,19 @@ def handle (args : List String) : String :=
     let names := if l == "-" then [] else l.splitOn ","
     let out := purge names
     if out.isEmpty then "-" else ",".intercalate (out.map (fun s => if s.isEmpty then "-" else s))
-  | _ => "bad-op"
+  | ["coll", cn, dns, uris, _, ipt, ok] => handleNames false cn dns uris ipt ok
+  | ["jnames", cn, dns, uris, _, ipt, ok] => handleNames true cn dns uris ipt ok
+  | ["vh", cn, dns, hosts] =>
+    match ofHex cn, parseStrList dns, parseStrList hosts with
+    | some cn, some dns, some hosts =>
+      let cert : ZV.C09.Cert := { extOids := if dns.isEmpty then [] else [ZV.C09.oidSAN], dnsNames := dns, ipAddresses := [], commonName := cn }
+      ",".intercalate (hosts.map (fun h =>
+        match ZV.C09.verifyHostname cert h with
+        | .ok .accept => "ok"
+        | .ok (.reject x) => "e:" ++ toHex x
+        | .err => "err"
+        | .panic => "panic"))
+    | _, _, _ => "bad-op"
+  | _ => handleViews args
 
 end ZV.C02
